@@ -27,6 +27,7 @@ import (
 	"flag"
 	"fmt"
 	"os"
+	"runtime"
 	"sort"
 	"strconv"
 	"strings"
@@ -78,6 +79,34 @@ func idxOf(tab []string, s string) int {
 }
 
 var errInjected = errors.New("verif: injected storage failure")
+
+// ---- which call is running?  Calls that share one service stack (same node) are told apart by goroutine.
+
+func goid() uint64 {
+	var b [64]byte
+	n := runtime.Stack(b[:], false)
+	f := strings.Fields(string(b[:n])) // "goroutine 123 [running]:"
+	if len(f) < 2 {
+		return 0
+	}
+	id, _ := strconv.ParseUint(f[1], 10, 64)
+	return id
+}
+
+var byGoroutine sync.Map // goroutine id -> *thread
+
+// shared marks wrappers of a stack used by several calls: the caller is looked up by goroutine
+var sharedTh = &thread{}
+
+func who(th *thread) *thread {
+	if th != sharedTh {
+		return th
+	}
+	if v, ok := byGoroutine.Load(goid()); ok {
+		return v.(*thread)
+	}
+	return nil
+}
 
 // ---- gated storage
 
@@ -133,7 +162,7 @@ func keyClass(key string) string {
 }
 
 func (g *gstore) gate(op, key string, write bool) error {
-	th := g.th
+	th := who(g.th)
 	if th == nil {
 		return nil
 	}
@@ -205,7 +234,14 @@ func (g *gstore) Get(key string) (any, error) {
 	if err := g.gate("Get", key, false); err != nil {
 		return nil, err
 	}
-	return g.Storage.Get(key)
+	v, err := g.Storage.Get(key)
+	// a status poll: the read has been performed (its answer is fixed); returning it is a scheduling point of its own
+	if th := who(g.th); th != nil && th.kind == "p" && keyClass(key) == "code" {
+		th.cur = "ret"
+		th.report <- "blocked"
+		<-th.grant
+	}
+	return v, err
 }
 func (g *gstore) Delete(key string) error {
 	if err := g.gate("Delete", key, true); err != nil {
@@ -258,13 +294,17 @@ type pmSvc struct {
 }
 
 func (p *pmSvc) CreatePortMapping(m *models.PortMapping) (*models.PortMapping, error) {
-	p.th.override = "create"
-	defer func() { p.th.override = "" }()
+	if th := who(p.th); th != nil {
+		th.override = "create"
+		defer func() { th.override = "" }()
+	}
 	return p.PortMappingService.CreatePortMapping(m)
 }
 func (p *pmSvc) DeletePortMapping(id string) error {
-	p.th.override = "rollback"
-	defer func() { p.th.override = "" }()
+	if th := who(p.th); th != nil {
+		th.override = "rollback"
+		defer func() { th.override = "" }()
+	}
 	return p.PortMappingService.DeletePortMapping(id)
 }
 
@@ -274,8 +314,10 @@ type pmRepo struct {
 }
 
 func (p *pmRepo) GetClientPortMappings(clientID string) ([]*models.PortMapping, error) {
-	p.th.override = "quota"
-	defer func() { p.th.override = "" }()
+	if th := who(p.th); th != nil {
+		th.override = "quota"
+		defer func() { th.override = "" }()
+	}
 	return p.IPortMappingRepository.GetClientPortMappings(clientID)
 }
 
@@ -291,6 +333,7 @@ type tspec struct {
 
 type caseSpec struct {
 	fine      bool
+	snode     bool // all calls through ONE service stack (same node, shared in-process state)
 	nodes     bool // every call on its own node: HybridStorage with a node-local cache over the shared cache
 	seed      uint64
 	tc        int64
@@ -342,6 +385,8 @@ func parseCase(line string) (caseSpec, error) {
 	case "sched":
 	case "nodes":
 		s.nodes = true
+	case "snode":
+		s.snode = true
 	case "nfine":
 		s.nodes = true
 		fallthrough
@@ -393,7 +438,7 @@ func parseCase(line string) (caseSpec, error) {
 		}
 		ts.listener, ts.laddr = num(), int(num())
 		ts.fault = next()
-		if ts.kind != "a" && ts.kind != "r" || ts.fault == "" {
+		if ts.kind != "a" && ts.kind != "r" && ts.kind != "p" || ts.fault == "" {
 			return s, bad
 		}
 		s.ths = append(s.ths, ts)
@@ -480,6 +525,13 @@ func newStack(ctx context.Context, st storage.Storage, th *thread, max int) (*se
 	cfg := &services.ConnectionCodeServiceConfig{MaxActiveCodesPerClient: 10, MaxActiveMappingsPerClient: max}
 	svc := services.NewConnectionCodeService(cc, psI, prI, cfg, ctx)
 	return svc, cc, pr, ps
+}
+
+func b2i(x bool) int {
+	if x {
+		return 1
+	}
+	return 0
 }
 
 var errTiming = errors.New("timing")
@@ -582,6 +634,10 @@ func runCaseT(s caseSpec, scale int, thsOut *[]*thread) (obs string, skip string
 		}
 		return nil
 	}
+	var sharedSvc *services.ConnectionCodeService
+	if s.snode {
+		sharedSvc, _, _, _ = newStack(ctx, &gstore{Storage: e.inner, th: sharedTh}, sharedTh, s.max)
+	}
 	start := func(th *thread) {
 		th.tokens = 1
 		if th.fine {
@@ -595,12 +651,26 @@ func runCaseT(s caseSpec, scale int, thsOut *[]*thread) (obs string, skip string
 				}
 				th.report <- "done"
 			}()
-			var st storage.Storage = &gstore{Storage: e.inner, th: th}
-			if s.nodes {
-				st = hybridNode(ctx, e.inner, th)
+			var svc *services.ConnectionCodeService
+			if s.snode {
+				byGoroutine.Store(goid(), th)
+				defer byGoroutine.Delete(goid())
+				svc = sharedSvc
+			} else {
+				var st storage.Storage = &gstore{Storage: e.inner, th: th}
+				if s.nodes {
+					st = hybridNode(ctx, e.inner, th)
+				}
+				svc, _, _, _ = newStack(ctx, st, th, s.max)
 			}
-			svc, _, _, _ := newStack(ctx, st, th, s.max)
-			if th.kind == "a" {
+			if th.kind == "p" {
+				rec, err := svc.GetConnectionCode(code)
+				if err != nil {
+					th.result = classify(err)
+				} else {
+					th.result = fmt.Sprintf("seen:a%dr%d", b2i(rec.IsActivated), b2i(rec.IsRevoked))
+				}
+			} else if th.kind == "a" {
 				m, err := svc.ActivateConnectionCode(&services.ActivateConnectionCodeRequest{Code: code, ListenClientID: th.listener, ListenAddress: listenAddrs[th.laddr]})
 				if err != nil {
 					th.result = classify(err)
@@ -620,6 +690,10 @@ func runCaseT(s caseSpec, scale int, thsOut *[]*thread) (obs string, skip string
 			}
 		}()
 	}
+	stallAfter := 10 * time.Second
+	if s.snode {
+		stallAfter = 1500 * time.Millisecond
+	}
 	wait := func(th *thread) error {
 		select {
 		case r := <-th.report:
@@ -629,11 +703,28 @@ func runCaseT(s caseSpec, scale int, thsOut *[]*thread) (obs string, skip string
 				th.state = 1
 			}
 			return nil
-		case <-time.After(10 * time.Second):
+		case <-time.After(stallAfter):
+			if s.snode {
+				// not parked at a gate and not finished: the call waits for another goroutine inside the
+				// code under test (a coalesced read); go on with the other calls and come back
+				th.state = 3
+				return nil
+			}
 			return errors.New("timeout")
 		}
 	}
 	stepThread := func(th *thread) error {
+		if th.state == 3 {
+			select {
+			case r := <-th.report:
+				th.state = 1
+				if r == "done" {
+					th.state = 2
+				}
+			case <-time.After(300 * time.Millisecond):
+				return nil
+			}
+		}
 		switch th.state {
 		case 0:
 			start(th)
@@ -708,11 +799,19 @@ func runCaseT(s caseSpec, scale int, thsOut *[]*thread) (obs string, skip string
 				return "", "", fmt.Errorf("bad event %q", ev)
 			}
 		}
-		for _, th := range ths {
-			for th.state != 2 {
-				if err := stepThread(th); err != nil {
-					finishAll()
-					return "timeout", "", nil
+		deadline := time.Now().Add(20 * time.Second)
+		for pending := true; pending; {
+			pending = false
+			for _, th := range ths {
+				for th.state != 2 {
+					if err := stepThread(th); err != nil || time.Now().After(deadline) {
+						finishAll()
+						return "timeout", "", nil
+					}
+					if th.state == 3 { // still waiting for another call: finish the others first
+						pending = true
+						break
+					}
 				}
 			}
 		}
